@@ -249,9 +249,13 @@ class CallMixin:
             tmp.pc = st.pc
             self.spec += 1
             try:
-                return self.ev(args[0], tmp)
+                r = self.ev(args[0], tmp)
             finally:
                 self.spec -= 1
+            if isinstance(r, SliceV) and r.snap is None and r.lv is None:
+                # old(s)[j] reads the pre-state contents of s, not just its header
+                r = SliceV(r.rid, r.off, r.ln, r.cap, r.elem, isstr=r.isstr, snap=tmp)
+            return r
         if name == "zzImp":
             a = self.ev(args[0], st)
             b = self.ev_guarded(args[1], st, a)
@@ -756,15 +760,40 @@ class CallMixin:
                 return self.invoke(f, [rv] + args, st, e)
         c = self.iface_contract(callee)
         if c is not None:
+            stub = None
             if "stub" in c.flags:
                 stub = self.prog.funcs.get(callee[:callee.find(".(")] + "." + c.flags["stub"].strip())
                 if stub is None:
                     raise Unsupported("interface contract stub %s not found" % c.flags["stub"])
                 self.called_contracts.add(callee)
-                return self.modular_call(stub, e, st, [recv] + args)
             if "pure" in c.flags:
-                return self.pure_iface(callee, recv, args, sigt, st)
+                # deterministic, memory-silent method: an uninterpreted function of (receiver identity, args),
+                # constrained by the stub contract's postconditions when one is given
+                out = self.pure_iface(callee, recv, args, sigt, st)
+                if stub is not None and not self.spec:
+                    self.assume_stub_post(stub, [recv] + args, out, st)
+                return out
+            if stub is not None:
+                return self.modular_call(stub, e, st, [recv] + args)
         return self.unknown_call(callee, e, st, evaluated=True)
+
+    def assume_stub_post(self, f, vals, out, st):
+        c = f.contract
+        env = State()
+        env.mem, env.heap, env.ghost, env.pc = st.mem, st.heap, st.ghost, st.pc
+        self.bind_values(f, vals, env)
+        pre = env.fork()
+        results = list(out.items) if isinstance(out, TupleV) else [out]
+        j = 0
+        for fld in (f.node["Type"].get("Results") or {}).get("List") or []:
+            for nm in fld.get("Names") or []:
+                if nm["Name"] != "_":
+                    env.vars[nm["obj"]] = results[j]
+                j += 1
+        for cl in c.of("ensures"):
+            if cl.get("canary"):
+                continue
+            self.assume(st, self.eval_clause(cl, env, results=results, old=pre))
 
     def pure_iface(self, callee, recv, args, sigt, st):
         sig = sigt.under().d
